@@ -290,8 +290,10 @@ Definition step_checks (cfg : config) (ms : mstate) (o : op) (outs : list out) (
     | _ => []
     end in
   (* --- counters: on every step (C07) --- *)
+  (* accepted by the socket = what appeared on the wire (a refused send leaves nothing there) *)
   let written := match o with
-                 | Write p | WriteToPair _ p => if ret_is outs is_ok && (0 <? pl_len p) then pl_len p else 0
+                 | Write _ | WriteToPair _ _ =>
+                   fold_left (fun a w => match w with OData _ _ q => a + (if 0 <? pl_len q then pl_len q else 0) | _ => a end) outs 0
                  | _ => 0
                  end in
   let c07c :=
@@ -516,11 +518,17 @@ Definition step_checks (cfg : config) (ms : mstate) (o : op) (outs : list out) (
         [ ck "C07.write_path"
              (if have_target then
                 match outs_wire outs with
-                | [OData h d q] => target_ok h d && payload_eqb q p && ret_is outs is_ok
+                | [OData h d q] => negb (pl_refused p) && target_ok h d && payload_eqb q p && ret_is outs is_ok
+                | [] => pl_refused p && ret_is outs is_ok
                 | _ => false
                 end
               else ret_is outs (fun r => match r with RErrNoPairs => true | _ => false end)
                    && match outs_wire outs with [] => true | _ => false end);
+          ck "C07.refused_send_counts_nothing"
+             (match outs_wire outs with
+              | [] => forallb (fun r => match pair_in prev (ps_id r) with Some q => data_counters_same r q | None => true end) (sn_pairs sn)
+              | _ => true
+              end);
           ck "C07.pair_send_counters"
              (match outs_wire outs with
               | [OData h d _] =>
@@ -551,7 +559,8 @@ Definition step_checks (cfg : config) (ms : mstate) (o : op) (outs : list out) (
               | Some q =>
                 if ps_state q =? CandidatePairStateSucceeded then
                   match outs_wire outs with
-                  | [OData h d x] => (ps_lh q =? h) && addr_eqb (ps_raddr q) d && payload_eqb x p && ret_is outs is_ok
+                  | [OData h d x] => negb (pl_refused p) && (ps_lh q =? h) && addr_eqb (ps_raddr q) d && payload_eqb x p && ret_is outs is_ok
+                  | [] => pl_refused p && ret_is outs is_ok
                   | _ => false
                   end
                 else ret_is outs (fun r => match r with RErrPairNotSucceeded => true | _ => false end)
